@@ -110,8 +110,8 @@ theorem seed_agree (P : Prim σ) (s : Nat) (e t : Bool) (h : List AObj) (a b : S
     Agree e t h (seed P s a) (seed P s b) :=
   ⟨rfl, rfl, rfl, hext, fun ht => objsRel_reseed (hobj ht)⟩
 
-theorem spawn_agree (P : Prim σ) (n : Nat) {e t : Bool} {h : List AObj} {a b : St σ} (hab : Agree e t h a b) :
-    (spawn P n a).1 = (spawn P n b).1 ∧ Agree e t h (spawn P n a).2 (spawn P n b).2 := by
+theorem spawn_agree (P : Prim σ) (o : SOpt) (n : Nat) {e t : Bool} {h : List AObj} {a b : St σ} (hab : Agree e t h a b) :
+    (spawn P o n a).1 = (spawn P o n b).1 ∧ Agree e t h (spawn P o n a).2 (spawn P o n b).2 := by
   unfold spawn
   simp only [hab.py, hab.spawned, true_and]
   exact ⟨rfl, hab.np, rfl, hab.ext, hab.objs⟩
@@ -161,6 +161,53 @@ theorem objsRel_set {h : List AObj} {xs ys : List (ObjSt σ)} (hr : ObjsRel h xs
       rw [this] at ha; cases ha
   · rw [List.getElem?_set_ne hjk] at hx hy ha
     exact hr.rel j x y a hx hy ha
+
+theorem objsRel_dup {h : List AObj} {xs ys : List (ObjSt σ)} (hr : ObjsRel h xs ys)
+    (k : Nat) (x y : ObjSt σ) (a : AObj) (hx : xs[k]? = some x) (hy : ys[k]? = some y) (ha : h[k]? = some a) :
+    ObjsRel (h ++ [a]) (xs ++ [x]) (ys ++ [y]) := by
+  refine ⟨by simp [hr.lenx], by simp [hr.leny], ?_⟩
+  intro j x' y' a' hx' hy' ha'
+  by_cases hj : j < h.length
+  · rw [List.getElem?_append_left (by rw [hr.lenx]; exact hj)] at hx'
+    rw [List.getElem?_append_left (by rw [hr.leny]; exact hj)] at hy'
+    rw [List.getElem?_append_left hj] at ha'
+    exact hr.rel j x' y' a' hx' hy' ha'
+  · have hj' : h.length ≤ j := Nat.le_of_not_lt hj
+    rw [List.getElem?_append_right (by rw [hr.lenx]; exact hj')] at hx'
+    rw [List.getElem?_append_right (by rw [hr.leny]; exact hj')] at hy'
+    rw [List.getElem?_append_right hj'] at ha'
+    rw [hr.lenx] at hx'
+    rw [hr.leny] at hy'
+    cases hd : j - h.length with
+    | zero =>
+      simp only [hd, List.getElem?_cons_zero, Option.some.injEq] at hx' hy' ha'
+      subst hx'; subst hy'; subst ha'
+      exact hr.rel k x y a hx hy ha
+    | succ n => simp [hd] at ha'
+
+/-- duplicating an object (`copy.deepcopy`, the library's way: same generator handle, copied private
+    state) keeps two agreeing executions agreeing; the duplicate is clean exactly when its original is -/
+theorem copy_agree {e t : Bool} {h : List AObj} (k : Nat) (ht : t = true) {a b : St σ}
+    (hab : Agree e t h a b) :
+    ResAgree e t (h ++ (h[k]?).toList)
+      ((copyObj k a).map (fun r => ((Out.copied : Out σ ο), r)))
+      ((copyObj k b).map (fun r => ((Out.copied : Out σ ο), r))) := by
+  have hobjs := hab.objs ht
+  unfold copyObj
+  by_cases hk : k < h.length
+  · have hka : k < a.objs.length := by rw [hobjs.lenx]; exact hk
+    have hkb : k < b.objs.length := by rw [hobjs.leny]; exact hk
+    have hxa : a.objs[k]? = some a.objs[k] := List.getElem?_eq_getElem hka
+    have hxb : b.objs[k]? = some b.objs[k] := List.getElem?_eq_getElem hkb
+    have hha : h[k]? = some h[k] := List.getElem?_eq_getElem hk
+    rw [hxa, hxb, hha]
+    simp only [Option.map_some, Option.toList_some, ResAgree, true_and]
+    exact ⟨hab.py, hab.np, hab.spawned, hab.ext, fun _ => objsRel_dup hobjs k _ _ _ hxa hxb hha⟩
+  · have hka : a.objs[k]? = none := by
+      rw [List.getElem?_eq_none_iff, hobjs.lenx]; omega
+    have hkb : b.objs[k]? = none := by
+      rw [List.getElem?_eq_none_iff, hobjs.leny]; omega
+    simp [hka, hkb, ResAgree]
 
 theorem withView_objs {α : Type} (d : Deps) (f : View σ → α × View σ) (arg : RngArg) (st : St σ)
     (r : α × St σ) (hw : withView d f arg st = some r) : r.2.objs = st.objs := by
@@ -295,8 +342,8 @@ theorem step_agree (P : Prim σ) {e t : Bool} {h : List AObj} (op : Op σ ο) (h
     · exact h0
   cases op with
   | seed s => exact ⟨rfl, seed_agree P s e t h a b hab.ext hab.objs⟩
-  | spawn n =>
-    obtain ⟨h1, h2⟩ := spawn_agree P n hab
+  | spawn n o =>
+    obtain ⟨h1, h2⟩ := spawn_agree P o n hab
     exact ⟨by simp [h1], h2⟩
   | call c arg =>
     have he' : arg.isExt = true → e = true := by
@@ -320,6 +367,9 @@ theorem step_agree (P : Prim σ) {e t : Bool} {h : List AObj} (op : Op σ ο) (h
     have := use_agree c k hos hcl he (htr rfl) hab
     simp only [step, absStep]
     cases hca : use c k a <;> cases hcb : use c k b <;> simp_all [ResAgree]
+  | copy k =>
+    simp only [step, absStep]
+    exact copy_agree k (htr rfl) hab
 
 theorem run_agree (P : Prim σ) {e t : Bool} (prog : List (Op σ ο))
     (hos : ∀ op ∈ prog, op.readsOS = false) (htr : ∀ op ∈ prog, op.usesObj = true → t = true) :
@@ -565,6 +615,7 @@ theorem step_iso (P : Prim σ) (op : Op σ ο) (hiso : op.isolatedCall = true) {
   | new c arg => simp [Op.isolatedCall] at hiso
   | use c k => simp [Op.isolatedCall] at hiso
   | setrng c k arg => simp [Op.isolatedCall] at hiso
+  | copy k => simp [Op.isolatedCall] at hiso
   | call c arg =>
     simp only [Op.isolatedCall, Bool.and_eq_true, Bool.not_eq_true'] at hiso
     obtain ⟨⟨⟨hng, hpy⟩, hnp⟩, hos⟩ := hiso
@@ -699,6 +750,12 @@ theorem step_ext_unchanged (P : Prim σ) (op : Op σ ο) (h : op.usesExt = false
       apply withView_ext_unchanged c.ctorDeps c.ctor arg _ st w.2 w.1 (by simpa using hw)
       cases arg <;> simp_all [Op.usesExt, RngArg.isExt]
     · cases hr
+  | copy k =>
+    simp only [step, copyObj, Option.map_eq_some_iff] at hs
+    obtain ⟨r, ⟨ob, _, rfl⟩, he⟩ := hs
+    simp only [Prod.mk.injEq] at he
+    obtain ⟨_, rfl⟩ := he
+    rfl
 
 /-- one isolated call on a caller generator, from two states holding the same caller generators -/
 theorem step_extIso (P : Prim σ) (op : Op σ ο) (h : op.extIso = true) (st1 st2 m1 : St σ) (o : Out σ ο)
@@ -710,6 +767,7 @@ theorem step_extIso (P : Prim σ) (op : Op σ ο) (h : op.extIso = true) (st1 st
   | new c arg => simp [Op.extIso] at h
   | use c k => simp [Op.extIso] at h
   | setrng c k arg => simp [Op.extIso] at h
+  | copy k => simp [Op.extIso] at h
   | call c arg =>
     cases arg with
     | glob => simp [Op.extIso] at h
@@ -772,9 +830,9 @@ theorem call_other_generators (c : Comp σ ο) (arg : RngArg) (st st' : St σ) (
     ∧ st'.ext.length = st.ext.length ∧ st'.spawned.length = st.spawned.length :=
   withView_other_generators c.deps c.sem arg st st' o hc
 
-theorem spawnGo_add (P : Prim σ) (n m : Nat) (py : σ) :
-    spawnGo P (n + m) py = ((spawnGo P n py).1 ++ (spawnGo P m (spawnGo P n py).2).1,
-      (spawnGo P m (spawnGo P n py).2).2) := by
+theorem spawnGo_add (P : Prim σ) (o : SOpt) (n m : Nat) (py : σ) :
+    spawnGo P o (n + m) py = ((spawnGo P o n py).1 ++ (spawnGo P o m (spawnGo P o n py).2).1,
+      (spawnGo P o m (spawnGo P o n py).2).2) := by
   induction n generalizing py with
   | zero => simp [spawnGo]
   | succ k ih =>
